@@ -26,6 +26,8 @@ mod var;
 mod public;
 #[cfg(cormacrelf_incremental_rs_verif)]
 mod verif;
+#[cfg(cormacrelf_incremental_rs_verif)]
+pub use verif::verif_live_nodes;
 use boxes::SmallBox;
 pub use public::*;
 
